@@ -90,6 +90,9 @@ class C07(Property):
                 break
             feats = {"exec": 4} if rng.random() < 0.35 else ({"cart": 4, "gather": 6} if rng.random() < 0.25 else ({"loop": 3} if rng.random() < 0.25 else None))
             spec = wfgen.gen_spec(rng, size=rng.randint(2, 12), features=feats)
+            if i < len(wfgen.CORPUS):
+                spec = json.loads(json.dumps(wfgen.CORPUS[i]))
+                ctx.corpus_replayed += 1
             failing = rng.random() < 0.33
             fspec = wfgen.choose_failure(rng, spec, loop_upstream_prob=0.0) if failing else None   # loop hangs belong to C04
             if fspec is None:
